@@ -32,7 +32,10 @@ def match(node: ast.AST, pattern: str, binds: Optional[Dict[str, ast.AST]] = Non
     """Structural match of `node` against `pattern`; names like A_, IDX_ are metavariables
     (bind any expression, equal text on repetition), `___` matches anything."""
     b = Binds(binds or {})
-    return b if _m(node, parse_pattern(pattern), b) else None
+    pat = parse_pattern(pattern)
+    if isinstance(node, ast.Expr) and not isinstance(pat, ast.stmt):
+        node = node.value
+    return b if _m(node, pat, b) else None
 
 
 def _m(n, p, b) -> bool:
@@ -227,4 +230,15 @@ def const_str_elts(node: ast.AST) -> Optional[List[str]]:
             else:
                 return None
         return out
+    return None
+
+
+def first_assign(func: ast.AST, name: str) -> Optional[ast.expr]:
+    """Value of the first plain `name = expr` binding (later augmented assignments allowed)."""
+    for st, val in assignments(func, name):
+        if isinstance(st, (ast.Assign, ast.AnnAssign)) and val is not None:
+            tgt = st.targets[0] if isinstance(st, ast.Assign) else st.target
+            if isinstance(tgt, ast.Name):
+                return val
+        return None
     return None
